@@ -325,6 +325,20 @@ def KnownNestedEndThenModule (ss : List Item) : Bool :=
 block is searched with *all* classes (`match_block_statement_candidates` drops `parser_classes` in its recursion) -/
 def KnownBlockClassAlone (c : Classes) : Bool := (c.td || c.ifc) && !(c.td && c.ifc && c.im && c.ca)
 
+/-- the class flags `discover` looks at (Declaration/Pragma matches are not reported) -/
+def Classes.obs (c : Classes) : Bool × Bool × Bool × Bool × Bool := (c.pu, c.ifc, c.im, c.td, c.ca)
+
+/-- union of all requests of a history -/
+def requested (first : Classes) (more : List Classes) : Classes := more.foldl (· ∪ ·) first
+
+/-- **narrow form of the request-order defect**: program units exist at the end of the history, but some
+(observable) class was requested only before the first request containing `ProgramUnitClass` and never again —
+exactly the histories whose view differs from the discovery of the union of their requests -/
+def KnownRequestLost (first : Classes) (more : List Classes) : Bool :=
+  match (runHistory first more).unitCls with
+  | some u => u.obs != (requested first more).obs
+  | none => false
+
 /-- the first request of a history does not contain `ProgramUnitClass` (its other classes are forgotten) -/
 def KnownRequestBeforeUnits (first : Classes) : Bool := !first.pu
 
